@@ -433,6 +433,17 @@ class EncoderLayout:
                     self.selfbuf[t.attr] = bn
                 return
             raise AnalysisError("encoder of %s: assignment %s not understood" % (self.cls.name, U(s)))
+        if isinstance(s, ast.AugAssign) and isinstance(s.op, ast.BitOr) and isinstance(s.target, ast.Subscript) and isinstance(s.target.value, ast.Name) \
+                and self.canon(s.target.value.id) in self.bufs:
+            # buf[i] |= bits: the byte stored there with more bits or-ed in
+            ok, i = self.fold(s.target.slice)
+            bn = self.canon(s.target.value.id)
+            buf = list(self.bufs[bn])
+            if ok and isinstance(i, int) and 0 <= i < len(buf) and buf[i][0] == "byte":
+                buf[i] = ("byte", self._bits_or(buf[i][1], self.vdesc(s.value)), "%s | %s" % (buf[i][2], U(s.value)))
+                self.bufs[bn] = buf
+                return
+            raise AnalysisError("encoder of %s: indexed store %s not understood" % (self.cls.name, U(s)))
         if isinstance(s, ast.AugAssign) and isinstance(s.target, ast.Name) and isinstance(s.op, ast.Add) and self.canon(s.target.id) in self.bufs:
             # buf += bytes  ==  buf.extend(bytes)
             bn = self.canon(s.target.id)
